@@ -64,7 +64,7 @@ Partitions(n, bs) ==
   \cup (IF n = 0 THEN {<<>>} ELSE {})                         \* no Write call at all
 
 StepOf(api, t, n, id, parts) ==
-  [api |-> api, t |-> t, size |-> n, id |-> id, parts |-> parts, rand |-> 0, wc |-> TRUE, ping |-> -1, mid |-> -1]
+  [api |-> api, t |-> t, size |-> n, id |-> id, parts |-> parts, rand |-> 0, wc |-> TRUE, ping |-> -1, mid |-> -1, via |-> "WC"]
 
 MinSize(api) == IF api = "JS" THEN 2 ELSE 0       \* "" is the shortest JSON string; size counts the JSON text,
                                                   \* the encoder may end it with a line feed (nl)
@@ -95,11 +95,18 @@ Menu(bs) == <<
   [StepOf("NW", 1, bs, 8, <<<<1, 1>>, <<bs - 1, 1>>>>) EXCEPT !.wc = FALSE] >>
 TripleMenu == {2, 4, 5, 7, 8}
 
-\* control frames: a ping before every message (0 and 125 bytes in turn), a pong inside streamed messages
-WithCtl(steps) ==
+\* control frames: a ping before every message (0 and 125 bytes in turn), a pong inside streamed messages.
+\* via: the entry point the ping (and the session's close frame) is written through - WriteControl, or the MESSAGE
+\* API with a control type: WriteMessage, NextWriter + Write + Close, a prepared message. Whatever the entry point
+\* and whatever is negotiated for data messages, a control frame is a control frame (RFC 6455 5.5, RFC 7692 6.1:
+\* never compressed, RSV1 clear) and the data messages around it arrive as written.  (A pong INSIDE a message has
+\* no entry point but WriteControl: the message API would end the open message.)
+CtlVias == {"WC", "WM", "NW", "PM"}
+WithCtl(steps, via) ==
   [k \in 1..Len(steps) |->
      [steps[k] EXCEPT !.ping = (IF k % 2 = 1 THEN 0 ELSE 125),
-                      !.mid  = (IF steps[k].api \in {"NW", "WS"} THEN 1 ELSE -1)]]
+                      !.mid  = (IF steps[k].api \in {"NW", "WS"} THEN 1 ELSE -1),
+                      !.via  = via]]
 Renumber(steps) == [k \in 1..Len(steps) |-> [steps[k] EXCEPT !.id = 10 * k + steps[k].id]]
 
 \* ------------------------------------------------------ the expected outcome
@@ -128,9 +135,9 @@ XSingle == \E bs \in XBufSizes, r \in Roles, cc \in ({Off} \cup XCompCfgs) : \E 
 Resid == \E bs \in ResidBufSizes, r \in Roles, cc \in ({Off} \cup ResidCompCfgs) : \E st \in ResidSteps(bs) :
            ses = Session("resid", r, cc, bs, <<st>>)
 
-Pair == \E e \in MultiEnvs, a \in 1..8, b \in 1..8, ctl \in BOOLEAN :
+Pair == \E e \in MultiEnvs, a \in 1..8, b \in 1..8, ctl \in BOOLEAN : \E via \in (IF ctl THEN CtlVias ELSE {"WC"}) :
           LET st == Renumber(<<Menu(e[3])[a], Menu(e[3])[b]>>)
-          IN ses = [Session("pair", e[1], e[2], e[3], IF ctl THEN WithCtl(st) ELSE st) EXCEPT !.over = ctl]
+          IN ses = [Session("pair", e[1], e[2], e[3], IF ctl THEN WithCtl(st, via) ELSE st) EXCEPT !.over = ctl]
 
 Triple == \E e \in MultiEnvs, a \in TripleMenu, b \in TripleMenu, c \in TripleMenu :
             /\ e[3] = MinBuf
@@ -156,11 +163,11 @@ Spec == Init /\ [][Next]_vars
 WalkInit == ses \in {Session("walk", e[1], e[2], e[3], <<>>) : e \in MultiEnvs}
 WalkNext ==
   /\ Len(ses.steps) < WalkLen
-  /\ \E a \in 1..8, ctl \in BOOLEAN :
+  /\ \E a \in 1..8, ctl \in BOOLEAN : \E via \in (IF ctl THEN CtlVias ELSE {"WC"}) :
        LET k  == Len(ses.steps) + 1
            s0 == [Menu(ses.bs)[a] EXCEPT !.id = 10 * k + a]
            s  == IF ctl THEN [s0 EXCEPT !.ping = (IF k % 2 = 1 THEN 0 ELSE 125),
-                                        !.mid = (IF s0.api \in {"NW", "WS"} THEN 1 ELSE -1)] ELSE s0
+                                        !.mid = (IF s0.api \in {"NW", "WS"} THEN 1 ELSE -1), !.via = via] ELSE s0
            st == Append(ses.steps, s)
        IN ses' = [ses EXCEPT !.steps = st, !.msgs = MsgsOf(<<ses.lvl, ses.content>>, st), !.over = (ses.over \/ ctl)]
 WalkSpec == WalkInit /\ [][WalkNext]_vars
@@ -176,6 +183,7 @@ WellFormed ==
        /\ ses.msgs[k].nl = (ses.steps[k].api = "JS")
        /\ ses.steps[k].size >= MinSize(ses.steps[k].api)
        /\ ses.steps[k].api \in APIs
+       /\ ses.steps[k].via \in CtlVias
   /\ ses.role \in Roles
 
 Emit     == PrintT(<<"CASE", ToJson(ses)>>)
